@@ -48,6 +48,25 @@ Theorem c02_group_average_nonvacuous :
   GroupAvgInst.op_swap (GroupAvgInst.Caxis_ex 1) <> GroupAvgInst.Caxis_ex 1.
 Proof. split; [exact (proj1 GroupAvgInst.diag_is_invariant) | exact (proj1 GroupAvgInst.axis_is_not_invariant)]. Qed.
 
+(** The code averages ONE operation per distinct rotation, not the whole group.  On translation-invariant vectors (everything
+    expanded from translation classes, next theorem) that is the full-group average: the products r o t enumerate the group,
+    every representative appears |T| times.  All groups, all listings.  Instance: CosetAvg.coset_instance. *)
+From SymfcV Require CosetAvg.
+Theorem c02_coset_average_is_group_average (W : IPS) (reps trans : list (W -> W)) v :
+  reps <> [] -> trans <> [] -> (forall t, In t trans -> t v = v) ->
+  avg W (CosetAvg.products W reps trans) v = avg W reps v.
+Proof. exact (CosetAvg.coset_avg_eq_full_avg W reps trans v). Qed.
+Print Assumptions c02_coset_average_is_group_average.
+
+(** ... and "invariant under every operation of the space group" splits into "invariant under the representatives" and
+    "invariant under the pure translations" *)
+Theorem c02_group_invariance_splits (W : IPS) (reps trans : list (W -> W)) v :
+  (exists e, In e reps /\ forall w, e w = w) -> (exists e, In e trans /\ forall w, e w = w) ->
+  ((forall g, In g (CosetAvg.products W reps trans) -> g v = v) <->
+   (forall r, In r reps -> r v = v) /\ (forall t, In t trans -> t v = v)).
+Proof. exact (CosetAvg.full_fixed_iff W reps trans v). Qed.
+Print Assumptions c02_group_invariance_splits.
+
 (** Pure translations are covered for free: anything expanded from translation classes is translation
     invariant (the class code does not change under a lattice translation), for every valid table. *)
 Theorem c02_translation_invariance N tp n tau t :
